@@ -4,3 +4,53 @@ from pv.contract import contract
 # str input is returned unchanged (bytes input: decoding through the cookie regex obligations + trusted str(bytes, enc))
 contract('parso.utils.python_bytes_to_unicode', params={'source': 'str', 'encoding': 'str', 'errors': 'str'},
          returns='str', ensures=['result == source'], props=['C15', 'C01'])
+
+
+# ---- bytes input (C15): which codec is used, and what happens when it does not exist.  decode(b, codec, errors) stands for
+# the codec machinery (str(b, codec, errors), external); has_cookie(b) / cookie_name(b) are the PEP 263 reading of the first
+# two lines -- that the regex in detect_encoding computes exactly them is the pair of RegLan obligations
+# re:utils.cookie:only-where-pep263-allows / none-missed (imported below as a fact about a match of that regex).
+import z3  # noqa: E402
+from pv.contract import specfn  # noqa: E402
+from pv.values import VStr, VBool, S, B  # noqa: E402
+
+_dec = z3.Function('$decode', S, S, S, S)
+_known = z3.Function('$known_codec', S, B)
+_hasc = z3.Function('has_cookie', S, B)
+_cname = z3.Function('cookie_name', S, S)
+
+
+@specfn('decode')
+def sp_decode(eng, st, b, enc, err):
+    return VStr(_dec(b.t, enc.t, err.t))
+
+
+@specfn('known_codec')
+def sp_known(eng, st, enc):
+    return VBool(_known(enc.t))
+
+
+@specfn('has_cookie')
+def sp_hasc(eng, st, b):
+    return VBool(_hasc(b.t))
+
+
+@specfn('cookie_name')
+def sp_cname(eng, st, b):
+    return VStr(_cname(b.t), b=True)
+
+
+BOM8 = 'source.startswith(b"\\xef\\xbb\\xbf")'
+ENC = ('ite(%s, "utf-8", ite(has_cookie(source), decode(cookie_name(source), "ascii", "replace"), encoding))' % BOM8)
+COOKIE_FACT = {'<literal>': ['matched == has_cookie(s)', 'implies(matched, g1 == cookie_name(s))']}
+contract('parso.utils.python_bytes_to_unicode.detect_encoding', closure_of='parso.utils.python_bytes_to_unicode',
+         params={}, free={'source': 'bytes', 'encoding': 'str'}, returns='str',
+         ensures=['result == ' + ENC], match_facts=COOKIE_FACT, props=['C15'])
+contract('parso.utils.python_bytes_to_unicode#bytes', params={'source': 'bytes', 'encoding': 'str', 'errors': 'str'}, returns='str',
+         ensures=['implies(known_codec(%s), result == decode(source, %s, errors))' % (ENC, ENC),
+                  # an unknown codec name (e.g. from a declaration like `# coding: foo-8`) falls back to UTF-8 only when the
+                  # caller asked for errors="replace"
+                  'implies(not known_codec(%s), errors == "replace" and result == decode(source, "utf-8", errors))' % ENC],
+         raises=['LookupError', 'UnicodeDecodeError'],
+         exc_ensures={'LookupError': 'not known_codec(%s) and errors != "replace"' % ENC, 'UnicodeDecodeError': 'errors == "strict"'},
+         match_facts=COOKIE_FACT, props=['C15'])
